@@ -538,16 +538,17 @@ theorem renTop_notDef (R : RenTable) (st : Stmt) (h : isTableDef st = false) : r
   · rfl
 
 theorem exec1_def (ft : FTab) (n : Nat) (s : St) (st : Stmt) (h : isTableDef st = true) :
-    exec1 ⟨ft, o⟩ n s st = .ok (.normal s) := by
+    exec1 ⟨ft, o⟩ n s st = if isPlainDef st then .ok (.normal s) else .stuck := by
   unfold isTableDef at h
   split at h
   · rw [exec1_flat _ _ _ _ rfl, flat_simple _ _ _ _ rfl rfl]; rfl
   · simp at h
 
-theorem isTableDef_renTop (R : RenTable) (st : Stmt) (h : isTableDef st = true) : isTableDef (renTop R st) = true := by
+theorem isTableDef_renTop (R : RenTable) (st : Stmt) (h : isTableDef st = true) :
+    isTableDef (renTop R st) = true ∧ isPlainDef (renTop R st) = isPlainDef st := by
   unfold isTableDef at h
   split at h
-  · rfl
+  · exact ⟨rfl, rfl⟩
   · simp at h
 
 theorem execTop_ren (R : RenTable) (ft : FTab) (htab : TableOK R ft) (n : Nat) : ∀ (l : List Stmt) (s s' : St),
@@ -558,7 +559,10 @@ theorem execTop_ren (R : RenTable) (ft : FTab) (htab : TableOK R ft) (n : Nat) :
     simp only [List.map_cons]
     apply execL_cons_rel
     · by_cases hd : isTableDef st = true
-      · rw [exec1_def ft n s st hd, exec1_def (renFT R ft) n s' _ (isTableDef_renTop R st hd)]; exact h
+      · rw [exec1_def ft n s st hd, exec1_def (renFT R ft) n s' _ (isTableDef_renTop R st hd).1, (isTableDef_renTop R st hd).2]
+        split
+        · exact h
+        · trivial
       · have hd' : isTableDef st = false := by simpa using hd
         rw [renTop_notDef R st hd']
         have := (goodR_all (o := o) R ft htab n).1 id (fun _ => true) stat_id s s' h st (okS_id st)
